@@ -676,6 +676,10 @@ class WindowedDStream(DStream):
     def _step(self, time_):
         if time_ <= self._current_time:
             return
+        # mark this interval as processed first: with a slide longer than one
+        # interval this method is reached several times per interval (from the
+        # context and from every derived stream) also when nothing is emitted
+        self._current_time = time_
 
         self._prev._step(time_)
         self._window.append(self._prev._current_rdd)
@@ -687,9 +691,10 @@ class WindowedDStream(DStream):
         # slide duration
         self._slide_counter = (self._slide_counter + 1) % self._slide_duration
         if self._slide_counter != 0:
+            # nothing is emitted between slides
+            self._current_rdd = EmptyRDD(self._context._context)
             return
 
-        self._current_time = time_
         self._current_rdd = self._context._context.union(self._window)
 
 
